@@ -1,4 +1,4 @@
-import MlodaVerif.Drv.Sched
+import MlodaVerif.Drv.C02
 namespace Drv.C06
-def handle := Drv.Sched.handle
+def handle := Drv.C02.handle
 end Drv.C06
